@@ -161,6 +161,7 @@ type stepSpec struct {
 	//   remove: connection #ci is removed from the registry (ClientRegistry.Unregister: the kick / stale-cleanup window), its stream stays open
 	// concurrent pair: this command is parked in its Park-th storage call, the Pair command (another connection) is handled from
 	// start to end meanwhile on the same handler objects, then this command resumes
+	Ref  string    `json:"ref,omitempty"`  // name the object by another handle than its id (see altRef)
 	Name string    `json:"name,omitempty"` // HTTPDomainCreate: the sub-domain to create (default: a fresh one)
 	Park int       `json:"park"`
 	Pair *stepSpec `json:"pair,omitempty"`
@@ -516,6 +517,48 @@ func (w *world) objID(cmd int, obj int) string {
 	}
 }
 
+// altRef names an object by another natural handle instead of its id: the full domain ("domain"), the domain in upper case
+// ("DOMAIN"), the sub-domain only ("sub"), the numeric / random suffix of the id only ("suffix"), the id in the other letter
+// case ("case"), the id with surrounding whitespace ("ws")
+func (w *world) altRef(cmd int, obj int, ref string) string {
+	id := w.objID(cmd, obj)
+	if ref == "" || obj < 0 {
+		return id
+	}
+	full := ""
+	if packet.CommandType(cmd) == packet.HTTPDomainDelete {
+		if m, err := w.fx.HTTPDomainRepo.GetMapping(context.Background(), id); err == nil {
+			full = m.FullDomain
+		}
+	}
+	switch ref {
+	case "domain":
+		if full != "" {
+			return full
+		}
+	case "DOMAIN":
+		if full != "" {
+			return strings.ToUpper(full[:1]) + full[1:len(full)-3] + strings.ToUpper(full[len(full)-3:])
+		}
+	case "sub":
+		if full != "" {
+			return strings.SplitN(full, ".", 2)[0]
+		}
+	case "suffix":
+		if i := strings.LastIndex(id, "_"); i >= 0 {
+			return id[i+1:]
+		}
+	case "case":
+		if up := strings.ToUpper(id); up != id {
+			return up
+		}
+		return strings.ToLower(id)
+	case "ws":
+		return " " + id + " "
+	}
+	return id + "?"
+}
+
 func (w *world) body(s *stepSpec, subSeq int) string {
 	if !s.Valid && s.Obj == -3 {
 		return "{not json"
@@ -551,7 +594,7 @@ func (w *world) body(s *stepSpec, subSeq int) string {
 			m["direction"] = []string{"", "outbound", "inbound", "all"}[s.Dir%5]
 		}
 	case packet.MappingGet, packet.MappingDelete, packet.HTTPDomainDelete:
-		m["mapping_id"] = w.objID(s.Cmd, s.Obj)
+		m["mapping_id"] = w.altRef(s.Cmd, s.Obj, s.Ref)
 	case packet.ConnectionCodeGenerate:
 		if s.Valid {
 			m["target_address"] = "tcp://127.0.0.1:7070"
@@ -562,18 +605,18 @@ func (w *world) body(s *stepSpec, subSeq int) string {
 			m["target_client_id"] = claim
 		}
 	case packet.ConnectionCodeActivate:
-		m["code"] = w.objID(s.Cmd, s.Obj)
+		m["code"] = w.altRef(s.Cmd, s.Obj, s.Ref)
 		if s.Valid {
 			m["listen_address"] = fmt.Sprintf("127.0.0.1:%d", 20000+subSeq%40000)
 		}
 	case packet.TunnelTrafficReport:
-		m["mapping_id"] = w.objID(s.Cmd, s.Obj)
+		m["mapping_id"] = w.altRef(s.Cmd, s.Obj, s.Ref)
 		m["bytes_sent"] = s.Sent
 		m["bytes_received"] = s.Recv
 		m["connections"] = 1
 	case packet.SOCKS5TunnelRequestCmd:
 		m["tunnel_id"] = fmt.Sprintf("verif-tunnel-%d", subSeq)
-		m["mapping_id"] = w.objID(s.Cmd, s.Obj)
+		m["mapping_id"] = w.altRef(s.Cmd, s.Obj, s.Ref)
 		m["target_host"] = "example.org"
 		m["target_port"] = 443
 		m["protocol"] = "socks5"
